@@ -90,7 +90,7 @@ func (e *c14env) wsClient(name string) *onet.Client {
 		} else {
 			c = onet.NewClient(fix.Suite, c14ServiceName)
 		}
-		c.ReadTimeout = 20 * time.Second
+		c.ReadTimeout = 8 * time.Second
 		e.ws[name] = c
 	}
 	return c
@@ -101,7 +101,7 @@ func (e *c14env) httpClient(name string) *http.Client {
 	defer e.mu.Unlock()
 	c, ok := e.hc[name]
 	if !ok {
-		c = &http.Client{Timeout: 20 * time.Second,
+		c = &http.Client{Timeout: 8 * time.Second,
 			Transport:     &http.Transport{DisableKeepAlives: !strings.HasPrefix(name, "k")},
 			CheckRedirect: func(*http.Request, []*http.Request) error { return http.ErrUseLastResponse }}
 		e.hc[name] = c
@@ -377,7 +377,7 @@ func (e *c14env) doRaw(cs *h.Case, js []c14job) {
 		// an error here means the server has already closed: the answers tell
 		conn.WriteMessage(websocket.BinaryMessage, buf)
 	}
-	conn.SetReadDeadline(time.Now().Add(20 * time.Second))
+	conn.SetReadDeadline(time.Now().Add(8 * time.Second))
 	dead := false
 	for _, j := range js {
 		if dead {
@@ -1009,8 +1009,8 @@ func c14genCases(c *h.Ctx, yield func(*h.Case)) {
 		emit(cs)
 	}
 
-	n := c.Pick(120, 2500)
-	for it := 0; it < n; it++ {
+	n := c.Pick(200, 2500)
+	for it := 0; it < n && !c.TooManyFails(); it++ {
 		// sequences on one kept websocket connection
 		cs := &h.Case{Class: "seq-ws"}
 		cl := []string{"k1", "o1"}[r.Intn(2)]
@@ -1097,5 +1097,5 @@ func c14genCases(c *h.Ctx, yield func(*h.Case)) {
 }
 
 func init() {
-	h.RegisterProp(h.Prop{Name: "c14", Gen: c14genCases, Exec: c14exec, Isolate: true, Workers: 6, Timeout: 120 * time.Second})
+	h.RegisterProp(h.Prop{Name: "c14", Gen: c14genCases, Exec: c14exec, Isolate: true, Workers: 6, Timeout: 60 * time.Second})
 }
